@@ -53,8 +53,19 @@ if os.environ.get("VERIF_WALL_CAP"):      # mutant self-tests run checks with fe
 CHUNK_WALL = 600  # seconds: backstop for one chunk of runs in a worker (dump traceback + exit)
 
 
+class _Guarded:
+    """A property module whose execute() reports exceptions escaping from the code under test as violations."""
+
+    def __init__(self, mod, pid):
+        self._mod = mod
+        self.execute = core.guarded(pid, mod.execute)
+
+    def __getattr__(self, name):
+        return getattr(self._mod, name)
+
+
 def load_prop(pid: str):
-    return importlib.import_module(f"dst.props.{pid}")
+    return _Guarded(importlib.import_module(f"dst.props.{pid}"), pid)
 
 
 def repo_root() -> str:
@@ -386,12 +397,11 @@ def run_check(pid: str, tier: str, verif_seed: int, runs: int | None, workers: i
         print(f"VIOLATION property={pid} replay={path}")
         print(f"  signature={list(sig)} occurrences={len(items)} first_run={kind}:{index} {note}")
         print("  " + msg[:600].replace("\n", "\n  "))
-        if rc == 0:
-            rc = 1
+        rc = 1      # a violation confirmed by replay decides the exit status, whatever else went wrong in the batch
         if sweep:
             break
     for kind, index, sig in not_repro[:5]:
-        if rc == 1:
+        if reported:
             print(f"NOTE property={pid} run={kind}:{index} sig={list(sig)}: seen in the batch but not reproducible alone "
                   f"(other violations were confirmed by replay)")
         else:
